@@ -25,10 +25,10 @@ structure Sys where
 
 def upd (h : Nat → Held) (c : Nat) (v : Held) : Nat → Held := fun c' => if c' = c then v else h c'
 
-def readReq (p : Bytes) : Req := ⟨.get, p, .empty, [], false, true⟩
+def readReq (p : Bytes) : Req := ⟨.get, p, .empty, [], false, .json⟩
 
 def casReq (env : Env) (p ep : Bytes) (out : Option Json) (v : Json) : Req :=
-  ⟨.patch, p, .val v, mkEtag ep (env.hash out), false, true⟩
+  ⟨.patch, p, .val v, mkEtag ep (env.hash out), false, .json⟩
 
 /-- client `c` gets its next request served -/
 def stepClient (env : Env) (p : Bytes) (f : Nat → Option Json → Json) (y : Sys) (c : Nat) : Sys :=
